@@ -21,6 +21,10 @@ pub enum Then {
     /// a COMPLETE greeting + READY that is well-formed but must be refused (`offset % 4`: 0 =
     /// unknown Socket-Type, 1 = ZMTP version 2.1, 2 = unknown mechanism, 3 = 256-byte identity)
     Invalid,
+    /// a complete, valid greeting and then, where READY is due, the 9-byte header of a command
+    /// frame declaring 2^50 (even offset) or 2^63 + 1 (odd offset) bytes - and nothing more: a
+    /// client that stalls inside a frame it has only announced. Nobody else may notice.
+    Huge,
 }
 
 #[derive(Debug, Clone, Serialize, Deserialize, PartialEq, Eq, Hash)]
@@ -61,6 +65,9 @@ pub fn stall_outcome(c: &StallCase) -> Outcome {
     }
     if c.stallers.iter().any(|s| s.then == Then::Invalid) {
         o.class("complete-but-invalid-handshake");
+    }
+    if c.stallers.iter().any(|s| s.then == Then::Huge) {
+        o.class("stalls-inside-an-announced-huge-frame");
     }
     if c.stallers.len() >= 64 {
         o.class("dozens-of-simultaneous-stallers");
@@ -113,7 +120,7 @@ pub fn stall_outcome(c: &StallCase) -> Outcome {
             for st in &c.stallers {
                 match realnet::raw_connect(&ep).await {
                     Ok(mut rc) => {
-                        let k = if st.then == Then::Invalid { 0 } else { st.offset.min(hs.len() - 1) };
+                        let k = if matches!(st.then, Then::Invalid | Then::Huge) { 0 } else { st.offset.min(hs.len() - 1) };
                         let _ = rc.write(&hs[..k]).await;
                         stallers.push((rc, st.clone()));
                     }
@@ -179,6 +186,13 @@ pub fn stall_outcome(c: &StallCase) -> Outcome {
                         };
                         let _ = rc.write(&g).await;
                         want_failed += 1;
+                    }
+                    Then::Huge => {
+                        let mut bytes = refcodec::RefGreeting::valid_null().encode();
+                        bytes.push(0x06);
+                        let declared: u64 = if st.offset % 2 == 0 { 1 << 50 } else { (1 << 63) + 1 };
+                        bytes.extend_from_slice(&declared.to_be_bytes());
+                        let _ = rc.write(&bytes).await;
                     }
                     Then::Invalid => {
                         let mut g = refcodec::RefGreeting::valid_null();
@@ -339,6 +353,9 @@ pub fn run(ctx: &Ctx) -> (Report, PropertyMeta) {
             for v in 0..4 {
                 cases.push(StallCase { kind: *kind, transport, stallers: vec![Staller { offset: v, then: Then::Invalid }] });
             }
+            for v in 0..2 {
+                cases.push(StallCase { kind: *kind, transport, stallers: vec![Staller { offset: v, then: Then::Huge }] });
+            }
         }
     }
     // MANY simultaneous stallers (any fixed bound on pending handshakes starves everybody else)
@@ -368,7 +385,7 @@ pub fn run(ctx: &Ctx) -> (Report, PropertyMeta) {
             let stallers = (0..k)
                 .map(|_| {
                     let offset = s.below(hs_len);
-                    let then = s.pick(&[Then::Hold, Then::Hold, Then::Close, Then::Garbage, Then::Garbage, Then::Invalid]);
+                    let then = s.pick(&[Then::Hold, Then::Hold, Then::Close, Then::Garbage, Then::Garbage, Then::Invalid, Then::Huge]);
                     Staller { offset, then }
                 })
                 .collect();
@@ -389,7 +406,7 @@ pub fn run(ctx: &Ctx) -> (Report, PropertyMeta) {
 
     let meta = PropertyMeta {
         level: "fault_enumeration",
-        rule: "real bound sockets on TCP and IPC with a monitor installed; 1..4 raw clients (and, in a few cases, 60..300 at once) send a prefix of a valid greeting+READY (enumerated offsets for one staller, random for several) and then hold, close, or send bytes that cannot continue a handshake (at EVERY offset: zeros to the end of the greeting then a message frame where READY is due; inside READY zeros to the end of the declared frame), or send a complete but unacceptable handshake (unknown Socket-Type, ZMTP 2.1, unknown mechanism, 256-byte identity); one well-behaved client is established before, one connects while the stallers are still connected, one afterwards. Oracle: both later clients complete the handshake and a message exchange, and the established peer keeps exchanging, while the stallers hold; no AcceptFailed is reported for a client that is merely slow; each handshake that failed (closed / garbage) produces exactly one AcceptFailed; the number of Accepted events equals the number of well-behaved clients, a client connecting afterwards exchanges normally, PUSH/DEALER rotate over exactly the admitted clients (2n sends reach each of n clients twice while stallers are still connected), and a client that never completed its handshake is sent no application message (peer set undisturbed). Non-trivial = at least one staller; distinct by case".into(),
+        rule: "real bound sockets on TCP and IPC with a monitor installed; 1..4 raw clients (and, in a few cases, 60..300 at once) send a prefix of a valid greeting+READY (enumerated offsets for one staller, random for several) and then hold, close, or send bytes that cannot continue a handshake (at EVERY offset: zeros to the end of the greeting then a message frame where READY is due; inside READY zeros to the end of the declared frame), or announce a command frame of 2^50 / 2^63+1 bytes where READY is due and stall there, or send a complete but unacceptable handshake (unknown Socket-Type, ZMTP 2.1, unknown mechanism, 256-byte identity); one well-behaved client is established before, one connects while the stallers are still connected, one afterwards. Oracle: both later clients complete the handshake and a message exchange, and the established peer keeps exchanging, while the stallers hold; no AcceptFailed is reported for a client that is merely slow; each handshake that failed (closed / garbage) produces exactly one AcceptFailed; the number of Accepted events equals the number of well-behaved clients, a client connecting afterwards exchanges normally, PUSH/DEALER rotate over exactly the admitted clients (2n sends reach each of n clients twice while stallers are still connected), and a client that never completed its handshake is sent no application message (peer set undisturbed). Non-trivial = at least one staller; distinct by case".into(),
         assumptions: vec![
             "'never completes' is decided with a 5 s watchdog where a handshake needs ~1 ms; the runtime is single-threaded and otherwise idle".into(),
             "REQ sockets under test only complete handshakes (a message exchange needs a single peer)".into(),
